@@ -175,8 +175,10 @@ Definition prep_tier_oracle (blanks : bool) (minT maxT : Z) (thr : option (Z * Z
   && (if blanks && d_isint t then
         (* an ascending, gap-free, overlap-free partition of [minT, maxT] *)
         (match partitionb minT out with Some e => e =? maxT | None => false end)
-        (* no written interval is shorter than the threshold; with None every one has positive length *)
-        && forallb (fun e => match thr with Some th => negb (below th (dlen e)) | None => 0 <? dlen e end) out
+        (* no written interval is shorter than the threshold -- unless the tier is a single interval, which then is
+           the whole span (nothing is left to absorb it); with None every one has positive length *)
+        && (forallb (fun e => match thr with Some th => negb (below th (dlen e)) | None => 0 <? dlen e end) out
+            || match out, thr with [e], Some _ => (ds e =? minT) && (de e =? maxT) | _, _ => false end)
         (* every labelled interval at least that long is written with its label, in order *)
         && subseq_labels (filter (fun e => match thr with Some th => negb (below th (dlen e)) | None => true end)
                                  (labelled src)) out
